@@ -225,6 +225,16 @@ def rule_min_identity(mod, rep, which=("growth", "firstcol")):
                 srcs = [strip_casts(f, o) for o in (f.inst[v[1]].ops if f.inst[v[1]].op == "phi" else f.inst[v[1]].ops[1:])]
                 lds = [o for o in srcs if o[0] == "v" and f.inst[o[1]].op == "load" and f.addr_paths(f.inst[o[1]]) == arr]
                 ivs = [o for o in srcs if o[0] == "v" and f.inst[o[1]].op == "phi"]
+                if (not lds or not ivs) and any(f.inst[v[1]].bb.id == h_ for h_, b_ in f.loops()):
+                    # conditional-store form: if (col < firstcol[row]) firstcol[row] = col;  - the stored value is the loop counter itself
+                    for (a_, t_) in f.control_deps().get(s.bb.id, ()):
+                        tt = f.blocks[a_].insts[-1]
+                        if tt.op == "br" and tt.ops and tt.ops[0][0] == "v":
+                            C_ = f.inst[tt.ops[0][1]]
+                            if C_.op == "icmp" and C_.pred in ("slt", "sgt", "sle", "sge"):
+                                o_ = [strip_casts(f, z) for z in C_.ops]
+                                if any(z == v for z in o_) and any(z[0] == "v" and f.inst[z[1]].op == "load" and f.addr_paths(f.inst[z[1]]) == arr for z in o_):
+                                    lds = [z for z in o_ if z != v]; ivs = [v]
                 if not lds or not ivs:
                     continue
                 lp = None
